@@ -23,6 +23,9 @@ Definition b2i (b : bytes) : prog Z :=
   match bytes_to_int b with Some z => Ret z | None => Raise ValueError end.
 
 Definition get_int : prog Z := x <- get ;; b2i x.
+(* "for _ in range(n): stack.get()" for a data-dependent n: at most depth+1 pops can happen *)
+Definition repeat_get_z (n : Z) : prog (list bytes) :=
+  d <- act ADepth ;; repeat_get (Z.to_nat (Z.min n (d + 1))).
 Definition put_bool (b : bool) : prog unit := put (if b then [xff] else [x00]).
 Definition nat_of (z : Z) : nat := Z.to_nat z.
 Definition flagon (c : config) (k : Z) : bool := flag_on (c_flags c) (FKInt k).
@@ -372,8 +375,8 @@ Fixpoint proofs_valid (proofs sources : list bytes) (dest constraint : bytes) : 
 Definition OP_CHECK_TRANSFER : prog unit :=
   cfg <- config_ ;;
   cid <- get ;; amount <- get_int ;; constraint <- get ;; dest <- get ;;
-  cnt <- get ;; let count := nat_of (be_to_Z cnt) in
-  sources <- repeat_get count ;; proofs <- repeat_get count ;;
+  cnt <- get ;; let count := be_to_Z cnt in
+  sources <- repeat_get_z count ;; proofs <- repeat_get_z count ;;
   match contract_get (c_contracts cfg) cid with
   | None => Raise ScriptExecutionError
   | Some CTransfer =>
@@ -384,7 +387,7 @@ Definition OP_CHECK_TRANSFER : prog unit :=
 Definition OP_INVOKE : prog unit :=
   cfg <- config_ ;;
   cid <- get ;; argc <- get_int ;; sert (0 <=? argc) ;;
-  args <- repeat_get (nat_of argc) ;;
+  args <- repeat_get_z argc ;;
   match contract_get (c_contracts cfg) cid with
   | None => Raise ScriptExecutionError
   | Some c =>
